@@ -246,3 +246,7 @@ def run(ctx: Ctx):
     ctx.cov["traces_validated_against_impl"] += len(recs)
     ctx.sample(recs[0]["r"])
     ctx.sample(recs[-1]["r"])
+    # ---- code -> spec: recorded calls on larger coordinates, validated by TLC against Trace_Ops.tla
+    from ..optrace import run_optrace
+
+    run_optrace(ctx, ['dist2_pp', 'dist2_ph'])
